@@ -674,6 +674,34 @@ static void fam_c08_prodcons(G& g, Plan& p) {
   p.cfg.max_run_steps = 200000000ull;
 }
 
+// "becomes reusable by the owning thread", step by step: a page gets its first remote free while it is still being filled, the owner processes
+// it, fills the page and moves on to the next one; most blocks of the full page are then freed by another thread; after the owner's next
+// (non-forced) collect the same number of allocations must fit into the two pages it has - a page that stays in the full queue shows as a third
+static void fam_c08_reuse(G& g, Plan& p) {
+  auto bs = bin_sizes(); size_t b = bs[16 + g.below(13)];          // 256 .. 2 KiB
+  size_t req = g.padded ? b - 8 : b;
+  const int cap_est = (int)((64 * KiB) / b) - 4;                   // a little less than the page really holds
+  const int W = cap_est + 12, K = 14 + (int)g.below(4);
+  p.nslots = W + 2 * cap_est + 80; p.progs.resize(3); p.sample_verify = false;
+  Program& P0 = p.progs[0]; Program& T1 = p.progs[1]; Program& T2 = p.progs[2];
+  const int a = 2 + (int)g.below((uint64_t)cap_est / 2);
+  for (int i = 0; i < a; i++) P0.ops.push_back(mk(OP_malloc, i, req));
+  const int early = 1 + (int)g.below(2);
+  for (int i = 0; i < early; i++) T1.ops.push_back(mk(OP_free, (int)g.below((uint64_t)a)));          // remote free(s) while the page is still in its size queue
+  P0.ops.push_back(mk(OP_spawn, 1)); P0.ops.push_back(mk(OP_join, 1));
+  const bool via_collect = g.chance(0.6);
+  P0.ops.push_back(via_collect ? mk(OP_collect, -1, 0) : mk(OP_malloc, W + 2 * cap_est + 70, 3 * MiB));   // the owner processes its delayed list (collect, or the generic path of a large allocation)
+  P0.ops.push_back(mk(OP_fill_page, 0, req, (uint64_t)W, (uint64_t)W));                                  // fill the page to its end: the last block lands in the next page
+  for (int i = 0; i < K; i++) P0.ops.push_back(mk(OP_malloc, W + i, req));                               // the next page is in use
+  const int nfree = cap_est - 6;
+  for (int i = 0; i < nfree; i++) T2.ops.push_back(mk(OP_free, i));                                       // all in the first page (slots are filled in address order)
+  P0.ops.push_back(mk(OP_spawn, 2)); P0.ops.push_back(mk(OP_join, 2));
+  P0.ops.push_back(mk(OP_collect, -1, 0));
+  for (int i = 0; i < nfree - 2; i++) P0.ops.push_back(mk(OP_malloc, W + 20 + i, req));
+  P0.ops.push_back(mk(OP_pc_sample, -1, 2 + (via_collect ? 0 : 1), (uint64_t)(cap_est + K + nfree)));    // (3 when the large block of step 3 holds a page of its own)
+  P0.ops.push_back(mk(OP_verify_all));
+}
+
 // ---------------------------------------------------------------------------------
 // C09: thread exit, abandonment, adoption
 // ---------------------------------------------------------------------------------
@@ -944,6 +972,7 @@ static void fam_c10_concurrent(G& g, Plan& p) {
   int nt = 2 + (int)g.below(4);
   if (g.chance(0.6)) {   // aim at the window between a remote's DELAYED_FREEING CAS and its push while the owner deletes the heap
     p.cfg.strategy = ST_TARGETED; p.cfg.hot_p = g.pick({0.3, 0.6, 0.9}); p.cfg.switch_p = g.pick({0.0, 0.002});
+    p.cfg.hold_steps = g.pick<uint64_t>({0, 60, 600, 600});      // a freer stalled inside its window while the owner polls (and yields) again and again
     p.cfg.hot_funcs = {"mi_free_block_delayed_mt", "_mi_page_try_use_delayed_free", "_mi_page_use_delayed_free", "_mi_page_queue_append", "_mi_heap_delayed_free_partial"};
     if (nt < 3) nt = 3 + (int)g.below(3);
   }
@@ -1892,7 +1921,10 @@ static void fam_c14_arena(G& g, Plan& p) {
   {
     uint64_t d = 0;
     if (!giant && g.chance(0.15)) { d = g.chance(0.5) ? 1 : (2 | (g.chance(0.3) ? 4 : 0) | (g.chance(0.3) ? 8 : 0)); if (g.chance(0.85)) p.cfg.hugetlb = 2; if (d == 1) set_env(p, "ALLOW_LARGE_OS_PAGES", 1); }   // pinned arena of large / huge OS pages
-    P0.ops.push_back(mk(OP_reserve_arena, 0, B * 32 * MiB, giant ? 0 : g.below(2), 1 /*exclusive*/, d));
+    // donated: the program hands the memory over itself, segment-aligned and not zero-initialised (then the arena keeps no record of dirty
+    // blocks, and with 64 / 128 blocks its in-use bitmap has no spare bits behind the last block)
+    if (!giant && d == 0 && g.chance(0.25)) P0.ops.push_back(mk(OP_manage_arena, 0, B * 32 * MiB, (g.chance(0.6) ? 1 : 0) | 2 | (g.chance(0.2) ? 4 : 0), 0));
+    else P0.ops.push_back(mk(OP_reserve_arena, 0, B * 32 * MiB, giant ? 0 : g.below(2), 1 /*exclusive*/, d));
   }
   for (int t = 1; t < nt; t++) P0.ops.push_back(mk(OP_spawn, t));
   for (int t = 0; t < nt; t++) {
@@ -2111,6 +2143,7 @@ static const FamilyDef FAMILIES[] = {
   {"c02_hugeremote", "C02", fam_c02_hugeremote, 1, true},
   {"c08_drain", "C08", fam_c08_drain, 1, true},
   {"c08_prodcons", "C08", fam_c08_prodcons, 0, true},
+  {"c08_reuse", "C08", fam_c08_reuse, 0, true},
   {"c09_exit", "C09", fam_c09_exit, 0, true},
   {"c09_userheap_adopter", "C09", fam_c09_userheap_adopter, 0, true},
   {"c10_single", "C10", fam_c10_single, 1, false},
